@@ -487,6 +487,11 @@ def run(ctx):
         ctx.count('outcome:' + (err or 'ok'))
         lines.append(line_of(tok, graded, form))
         plan.append((desc, form, real))
+        # pure keyword forms also through the keyword branch of __new__ as *translated from the source* (not graded: the rest of
+        # __new__ then only turns the names into binary keys)
+        if form.get('items') and set(form) <= {'items'} and not graded:
+            lines.append(f'srckw {tok} I:' + ','.join(f'{a}={b}' for a, b in form['items'].items()))
+            plan.append(({**desc, 'translated': 'keyword branch'}, form, real))
         # direct oracle
         sup = supplied_of(alg, form)
         if mv is not None and sup is not None and not form.get('ctor'):
